@@ -728,14 +728,21 @@ def traverse(node):
             continue
 
         child = traversing.child
+        stack.append(traversing._replace(is_finished=True))
+        yield traversing
+
+        # Every occurrence gets its pair of events, but a shared object or
+        # container is only expanded the first time. (Plain values are never
+        # expanded, and equal ones may well be the identical Python object.)
+        if not isinstance(child, (list, tuple, dict, ParsedObject)):
+            continue
+
         child_id = id(child)
 
         if child_id in visited:
             continue
 
         visited.add(child_id)
-        stack.append(traversing._replace(is_finished=True))
-        yield traversing
 
         def extend(items):
             stack.extend(reversed(list(items)))
